@@ -138,7 +138,24 @@ func (r *Replayer) build(pkgRel string) (string, error) {
 	replace[filepath.Join(r.Repo, pkgRel, "zz_verif_replay_test.go")] = testFile
 	if r.RWInstrument {
 		safe += "_rw"
-		srcs, _ := filepath.Glob(filepath.Join(r.Repo, pkgRel, "*.go"))
+		// every library package, not only the one under test: the client's locks sit above the cache's and the
+		// server's above the database's, and a recursive read lock in a dependency is reported the same way
+		var srcs []string
+		filepath.Walk(r.Repo, func(path string, info os.FileInfo, err error) error {
+			if err != nil {
+				return nil
+			}
+			if info.IsDir() {
+				if n := info.Name(); path != r.Repo && (strings.HasPrefix(n, ".") || n == "vendor" || n == "testdata" || n == "verifrt" || n == "zzverif") {
+					return filepath.SkipDir
+				}
+				return nil
+			}
+			if strings.HasSuffix(path, ".go") {
+				srcs = append(srcs, path)
+			}
+			return nil
+		})
 		for _, src := range srcs {
 			if strings.HasSuffix(src, "_test.go") {
 				continue
@@ -154,16 +171,14 @@ func (r *Replayer) build(pkgRel string) (string, error) {
 			lines := strings.Split(text, "\n")
 			for i, l := range lines {
 				if strings.HasPrefix(l, "package ") {
-					lines[i] = l + "; import verifrtmu \"" + ModulePath + "/verifrt\"; import verifsync \"sync\""
+					lines[i] = l + "; import verifrtmu \"" + ModulePath + "/verifrt\""
 					break
 				}
 			}
-			// keep "sync" used in the file whatever else it declares
-			text = strings.Join(lines, "\n") + "\nvar _ verifsync.Mutex\n"
-			if strings.Contains(text, "\t\"sync\"\n") && !strings.Contains(text, "sync.") {
-				text = strings.Replace(text, "\t\"sync\"\n", "", 1)
-			}
-			dst := filepath.Join(r.Scratch, safe+"_"+filepath.Base(src))
+			// the file imported "sync" for its RWMutex: keep that import used whatever else it declares
+			text = strings.Join(lines, "\n") + "\nvar _ sync.Mutex\n"
+			srcRel, _ := filepath.Rel(r.Repo, src)
+			dst := filepath.Join(r.Scratch, safe+"_"+strings.ReplaceAll(srcRel, string(filepath.Separator), "_"))
 			if err := os.WriteFile(dst, []byte(text), 0o644); err != nil {
 				return "", err
 			}
